@@ -55,6 +55,16 @@ FINDINGS = {
                                 "formula": "[r.id for r in T1.lookupRecords(a=$k, order_by=\"s\")]"}]),
     B(["ModifyColumn", "T1", "s", {"isFormula": True, "formula": "1/0"}]),
     B(["UpdateRecord", "T1", 1, {"a": 2}])]},
+  "F-p.c05": {"profile": "c05", "cfg": {"check_every": 1}, "events": [
+    OPEN, B(["AddTable", "Src", [col("c1", "Text")]]),
+    B(["CreateViewSection", 1, 0, "record", [2], None]),
+    B(["AddTable", "Aaa", [col("k", "Text")]]),
+    B(["AddColumn", "Aaa", "f", {"type": "Any", "isFormula": True,
+                                 "formula": "Src_summary_c1.lookupOne(c1=$k).count"}]),
+    # one bundle adds the looked-up key to the source and the row that looks it up; table Aaa
+    # sorts before Src, so Aaa.f is evaluated before the summary row exists
+    B(["BulkAddRecord", "Src", [None, None], {"c1": ["1", "x y"]}],
+      ["BulkAddRecord", "Aaa", [None, None], {"k": ["1", "zz"]}])]},
   "F-b.c05": {"profile": "c05", "cfg": {"check_every": 1}, "events": [
     OPEN, B(["AddTable", "T1", [col("a", "Int")]], ["AddRecord", "T1", None, {"a": 1}]),
     B(["AddColumn", "T1", "f", {"type": "Any", "isFormula": True, "formula": "len(Later.all)"}]),
